@@ -39,14 +39,26 @@ def showChecks (op : String) (r : Except Err Nat) (outLen : Nat) : List String :
 def cpsStr (cps : List Nat) : String :=
   if cps.isEmpty then "-" else ",".intercalate (cps.map (fun n => String.ofList (Nat.toDigits 16 n)))
 
-def showU8 (op : String) (e : Option Err) (cps : List Nat) : List String :=
-  builds.map (fun b => s!"P {op} {b} rc={rcName e} cps={cpsStr cps}") ++ [s!"P {op} same=1"]
+/-- per build: the decoder with a recording callback, then the decoder created without callback -/
+def showU8 (op : String) (e : Option Err) (cps : List Nat) (eNoCb : Option Err) : List String :=
+  (builds.map (fun b => [s!"P {op} {b} rc={rcName e} cps={cpsStr cps}", s!"P {op} {b} nocb=1 rc={rcName eNoCb}"])).flatten ++
+    [s!"P {op} same=1"]
+
+/-- `u8all`: the harness runs every chunking in both callback modes and reports the one-shot
+result; by `c05_utf8_chunking` / `c05_utf8_chunking_nocb` the model has nothing else to say -/
+def showU8All (x : List UInt8) : List String :=
+  let (e, cps) := decodeUtf8 x
+  let en := decodeUtf8NoCb x
+  let n := if x.length == 0 then 1 else 2 ^ (x.length - 1)
+  (builds.map (fun b => [s!"P u8all {b} rc={rcName e} cps={cpsStr cps} chunkings={n} chunkdep=0",
+                         s!"P u8all {b} nocb=1 rc={rcName en} chunkdep=0"])).flatten ++ ["P u8all same=1"]
 
 def parseChunks : List String → Option (List (List UInt8))
   | [] => some []
   | s :: r => do let c ← parseHex? s; let cs ← parseChunks r; pure (c :: cs)
 
-abbrev St := Option Utf8
+/-- the persistent decoders: (with callback, without callback) -/
+abbrev St := Option (Utf8 × Utf8)
 
 def step (s : St) (t : List String) : St × List String :=
   let bad := (s, ["bad-op"])
@@ -96,20 +108,29 @@ def step (s : St) (t : List String) : St × List String :=
       (s, showChecks "hexdynhuge" ((hexEncodeAppendDynamicChecks n l c).map (·.1)) l)
     | _, _, _ => bad
   | "u8" :: chunks => match parseChunks chunks with
-    | some cs => let (e, cps) := runChunks Utf8.init cs; (s, showU8 "u8" e cps)
+    | some cs => let (e, cps) := runChunks Utf8.init cs; (s, showU8 "u8" e cps (runChunksNoCb Utf8.init cs))
     | none => bad
   | ["u8one", x] => match parseHex? x with
-    | some x => let (e, cps) := decodeUtf8 x; (s, showU8 "u8one" e cps)
+    | some x => let (e, cps) := decodeUtf8 x; (s, showU8 "u8one" e cps (decodeUtf8NoCb x))
     | none => bad
-  | ["u8new"] => (some Utf8.init, [])
+  | ["u8all", x] => match parseHex? x with
+    | some x => if x.length > 16 then bad else (s, showU8All x)
+    | none => bad
+  | ["u8new"] => (some (Utf8.init, Utf8.init), [])
   | ["u8upd", x] => match s, parseHex? x with
-    | some d, some x => let (d', e, cps) := update d x; (some d', showU8 "u8upd" e cps)
+    | some (d, dn), some x =>
+      let (d', e, cps) := update d x
+      let (dn', en) := updateNoCb dn x
+      (some (d', dn'), showU8 "u8upd" e cps en)
     | _, _ => bad
   | ["u8fin"] => match s with
-    | some d => let (d', e) := finalize d; (some d', showU8 "u8fin" e [])
+    | some (d, dn) =>
+      let (d', e) := finalize d
+      let (dn', en) := finalize dn
+      (some (d', dn'), showU8 "u8fin" e [] en)
     | none => bad
   | ["u8reset"] => match s with
-    | some _ => (some Utf8.init, [])
+    | some _ => (some (Utf8.init, Utf8.init), [])
     | none => bad
   | _ => bad
 
